@@ -9,7 +9,8 @@ META = {'assumptions': ['"never mutates the caller\'s objects" is about copy.dee
                         'correspondence run (shared real objects vs independent model instances), not by a theorem']}
 ROLES = ['r0', 'r1']
 NAMES = ['p', 'q', 'd', 'oldp']
-CONTENTS = [{'p': 'role:r0'}, {'q': '@'}, {}, {'oldp': 'role:r1'}, {'p': '!', 'q': 'role:r0'}]
+CONTENTS = [{'p': 'role:r0'}, {'q': '@'}, {}, {'oldp': 'role:r1'}, {'p': '!', 'q': 'role:r0'}, {'oldp': 'role:r0 and role:r1'},
+            {'oldp': '!', 'q': '@'}, {'oldp': 'role:r1', 'd': '!'}]
 
 
 def snap(objs):
